@@ -9,7 +9,7 @@ using namespace vfc;
 using vf::CaseResult;
 using vf::Rng;
 
-static const char *OPN[] = {"refineX", "refineY", "coarsenX", "coarsenY", "improve", "run", "refine", "coarsenFully", "refineFully"};
+static const char *OPN[] = {"refineX", "refineY", "coarsenX", "coarsenY", "improve", "run", "refine", "coarsenFully", "refineFully", "updateCellDemand"};
 
 static void densityCase(Rng &rng, CaseResult &r) {
   GenOpts o = makeProfile(rng, rng.pick(std::vector<std::string>{"general", "obstruction", "manyfixed", "dense", "multirow"}));
@@ -35,7 +35,7 @@ static void densityCase(Rng &rng, CaseResult &r) {
   p.quadraticPenaltyFactor = rng.chance(0.5) ? 0.0 : 1e-3 * rng.unif();
   int nOps = rng.chance(0.1) ? (int)rng.range(13, 40) : (int)rng.range(1, 12);
   std::vector<int> ops;
-  for (int k = 0; k < nOps; ++k) ops.push_back((int)rng.range(0, 8));
+  for (int k = 0; k < nOps; ++k) ops.push_back(rng.chance(0.08) ? 9 : (int)rng.range(0, 8));
   uint64_t targetSeed = rng.next();
   auto sample = [&]() {
     std::ostringstream ps;
@@ -164,6 +164,32 @@ static void densityCase(Rng &rng, CaseResult &r) {
     else if (op == 6 && (leg.levelX() > 0 || leg.levelY() > 0)) leg.refine();
     else if (op == 7) leg.coarsenFully();
     else if (op == 8) leg.refineFully();
+    else if (op == 9) {
+      // the stage the global placer runs when a callback resized cells: new sizes for cells of non-zero area are taken over;
+      // a change that would give a placed cell no demand (made fixed, or a side of zero) is refused and changes nothing
+      Circuit c2 = c;
+      int kind = (int)trng.range(0, 2);
+      std::vector<int> cand;
+      for (int cc = 0; cc < n; ++cc) if (leg.cellDemand(cc) > 0) cand.push_back(cc);
+      if (cand.empty()) kind = 0;
+      if (kind == 0) {
+        for (int cc : cand) if (trng.chance(0.4)) {
+          // cell demands are 32-bit in the density legalizer: stay below 2^30 per cell (documented assumption of this check)
+          long long f = 1 + trng.range(0, 2);
+          if ((long long)c2.cellWidth_[cc] * c2.cellHeight_[cc] * f < (1LL << 30)) c2.cellWidth_[cc] = std::max(1, (int)(c2.cellWidth_[cc] * f));
+        }
+        try { leg.updateCellDemand(c2); c = c2; r.count("demand_updates_applied"); } catch (const std::exception &e) { r.fail("C16:updateCellDemand-threw-on-a-resize", e.what()); }
+      } else {
+        int cc = cand[trng.range(0, (long long)cand.size() - 1)];
+        if (kind == 1) c2.cellIsFixed_[cc] = true; else if (trng.chance(0.5)) c2.cellWidth_[cc] = 0; else c2.cellHeight_[cc] = 0;
+        std::vector<int> before;
+        for (int k2 = 0; k2 < n; ++k2) before.push_back(leg.cellDemand(k2));
+        bool threw = false;
+        try { leg.updateCellDemand(c2); } catch (const std::exception &) { threw = true; }
+        r.count(threw ? "demand_updates_refused" : "demand_updates_to_zero_accepted");
+        if (threw) for (int k2 = 0; k2 < n; ++k2) if (leg.cellDemand(k2) != before[k2]) { r.fail("C16:refused-demand-update-changed-demands", "cell " + std::to_string(k2)); break; }
+      }
+    }
     else did = false;
     if (!did) continue;
     ++applied;
